@@ -242,7 +242,7 @@ func mapCombos() [][2]int8 {
 func TestC02_Random(t *testing.T) {
 	rec := evid.New("C02", "c02_random", "rapid: 1-4 well-formed typed value trees (all 11 types, containers of 0/1/2/3-8/100-300 elements of every element/key/value type, nesting chains 1..63, strings 0..70000 bytes) + trailer (none, random, a further valid value, 0xff..) read through all five skippers under generated source plans (chunking, zero reads, final data with error); non-trivial = a value with >= 3 structural fields or > 4096 bytes AND a stream skipper saw a value across >= 2 source reads")
 	defer rec.Flush()
-	runRapid(t, rec, "c02_skip_seq", evid.Pick(25000, 60000), genSkipSeq, checkSkipSeq)
+	runRapid(t, rec, "c02_skip_seq", evid.Pick(25000, 400000), genSkipSeq, checkSkipSeq)
 }
 
 // TestC02_Combos enumerates every (key type, value type) map and every element type list/set with
@@ -505,7 +505,7 @@ func genSkipCase(t *rapid.T) SkipCase {
 func TestC08_Random(t *testing.T) {
 	rec := evid.New("C08", "c08_random", "rapid: valid encodings of generated value trees and nesting chains of depth 1..70, then one malformation operator (cut at any offset, structural tag replaced by a boundary byte, size/length field replaced by 0/1/2/0x7fffffff/0x80000000/0xffffffff/.., size +-delta, field id, byte, bit flip, append, splice) and sometimes an arbitrary type tag -128..127; five skippers vs the recursive-descent reference; non-trivial = rejected with >= 2 structural fields parsed, accepted with >= 3, or nesting >= 65")
 	defer rec.Flush()
-	runRapid(t, rec, "c08_skip_grammar", evid.Pick(50000, 100000), genSkipCase, func(c SkipCase, cv *cov) *evid.Violation { return checkSkipGrammarRec(c, cv, rec) })
+	runRapid(t, rec, "c08_skip_grammar", evid.Pick(50000, 400000), genSkipCase, func(c SkipCase, cv *cov) *evid.Violation { return checkSkipGrammarRec(c, cv, rec) })
 }
 
 var grammarAlphabet = []byte{0x00, 0x01, 0x02, 0x03, 0x08, 0x0b, 0x0c, 0x0d, 0x0e, 0x0f, 0x7f, 0x80, 0xff}
